@@ -94,6 +94,12 @@ class Gen:
             params.append(("rest...", None, True))
         return params
 
+    def arg_expr(self, names):
+        """an argument: now and then an explicit NULL (an argument like any other: it binds, the default does not apply)"""
+        if self.r.random() < 0.1:
+            return NULL
+        return self.small_expr(names)
+
     def call_args(self, params, names, allow_errors=True):
         """arguments for a call of a function with `params`, using every call form"""
         r = self.r
@@ -107,34 +113,34 @@ class Gen:
             n = len(plain)
             while n > 0 and plain[n - 1][1] is not None and r.random() < 0.5:
                 n -= 1
-            args = [("pos", self.small_expr(names)) for _ in range(n)]
+            args = [("pos", self.arg_expr(names)) for _ in range(n)]
             if has_rest:
-                args += [("pos", self.small_expr(names)) for _ in range(r.choice([0, 1, 2, 3, 5]))]
+                args += [("pos", self.arg_expr(names)) for _ in range(r.choice([0, 1, 2, 3, 5]))]
         elif form < 0.6:
             # mixed: some positional, the rest named (possibly in another order)
             k = r.randint(0, len(plain))
-            args = [("pos", self.small_expr(names)) for _ in range(k)]
+            args = [("pos", self.arg_expr(names)) for _ in range(k)]
             rest_named = [p for p in plain[k:] if p[1] is None or r.random() < 0.6]
             r.shuffle(rest_named)
-            args += [("named", p[0], self.small_expr(names)) for p in rest_named]
+            args += [("named", p[0], self.arg_expr(names)) for p in rest_named]
         elif form < 0.75:
             # named first parameter given by name, positionals fill the remaining ones
             if plain:
                 j = r.randrange(len(plain))
                 others = [p for i, p in enumerate(plain) if i != j]
-                args = [("pos", self.small_expr(names)) for _ in others] + [("named", plain[j][0], self.small_expr(names))]
+                args = [("pos", self.arg_expr(names)) for _ in others] + [("named", plain[j][0], self.arg_expr(names))]
         elif form < 0.88:
             # list spread (through an identifier or a literal)
-            vals = [self.small_expr([]) for _ in range(len(plain) + (r.randint(0, 2) if has_rest else 0))]
+            vals = [self.arg_expr([]) for _ in range(len(plain) + (r.randint(0, 2) if has_rest else 0))]
             k = r.randint(0, len(vals))
             args = [("pos", v) for v in vals[:k]] + [("spread", ("list", vals[k:]))]
         else:
             # map spread: string keys name parameters
             k = r.randint(0, len(plain))
-            args = [("pos", self.small_expr(names)) for _ in range(k)]
+            args = [("pos", self.arg_expr(names)) for _ in range(k)]
             named = [p for p in plain[k:] if p[1] is None or r.random() < 0.5]
             if named:
-                args.append(("spread", ("map", [(S(p[0]), self.small_expr([])) for p in named])))
+                args.append(("spread", ("map", [(S(p[0]), self.arg_expr([])) for p in named])))
         if bad:
             kind = r.randrange(4)
             if kind == 0 and args:
